@@ -172,6 +172,12 @@ def _valid(nodes, d=0):
         elif n[0] == "h":
             if len(n) != 3 or n[1] not in HIDDEN or not isinstance(n[2], str) or "<" in n[2] or "&" in n[2]:
                 return False
+        elif n[0] == "c":  # comment
+            if len(n) != 2 or not isinstance(n[1], str) or "--" in n[1] or ">" in n[1] or "<" in n[1]:
+                return False
+        elif n[0] == "v":  # void element
+            if len(n) != 2 or n[1] not in ("br", "hr", "img"):
+                return False
         elif n[0] == "e":
             if len(n) != 3 or n[1] not in INLINE + BLOCKS + LEAFBLOCK or not _valid(n[2], d + 1):
                 return False
@@ -187,8 +193,13 @@ def ser(nodes):
             s += H.escape(n[1], quote=False)
         elif n[0] == "h":
             s += f"<{n[1]}>{n[2]}</{n[1]}>"
+        elif n[0] == "c":
+            s += f"<!--{n[1]}-->"
+        elif n[0] == "v":
+            s += f"<{n[1]}/>" if len(n[1]) % 2 else f"<{n[1]}>"
         else:
-            s += f"<{n[1]}>" + ser(n[2]) + f"</{n[1]}>"
+            attr = ' class="x y"' if len(n[2]) % 2 else ""
+            s += f"<{n[1]}{attr}>" + ser(n[2]) + f"</{n[1]}>"
     return s
 
 
@@ -214,7 +225,10 @@ _hidden_body = st.lists(st.sampled_from(list("abc XYZ.;{}=")), max_size=6).map("
 
 def _inline(depth):
     leaf = st.one_of(st.tuples(st.just("t"), _txt).map(list), st.tuples(st.just("t"), _txt).map(list),
-                     st.tuples(st.just("h"), st.sampled_from(HIDDEN), _hidden_body).map(list))
+                     st.tuples(st.just("t"), _txt).map(list), st.tuples(st.just("t"), _txt).map(list),
+                     st.tuples(st.just("h"), st.sampled_from(HIDDEN), _hidden_body).map(list),
+                     st.tuples(st.just("c"), st.sampled_from([" a comment ", "x", " 1 U.S. 1 "])).map(list),
+                     st.tuples(st.just("v"), st.sampled_from(["br", "hr", "img"])).map(list))
     if depth <= 0:
         return st.lists(leaf, min_size=1, max_size=3)
     return st.lists(st.one_of(leaf, leaf, st.tuples(st.just("e"), st.sampled_from(INLINE), st.deferred(lambda: _inline(depth - 1))).map(list)), min_size=1, max_size=3)
